@@ -64,9 +64,29 @@ def check_c19(idx: Index, tier: str, res: Result) -> None:
     for name in ("compress_settings", "compress_results"):
         fi = idx.func(COMPRESS, name)
         inp = params(fi.node)[0]
-        loops = [n for n in fi.node.body if isinstance(n, ast.For) and src(n.iter) in ("%s.keys()" % inp, inp, "%s.items()" % inp)]
+        def base_iter(e: ast.AST):
+            """strip order-changing / order-keeping wrappers: returns (base expression, [wrapper calls])"""
+            wr = []
+            while isinstance(e, ast.Call) and call_name(e) in ("sorted", "list", "reversed", "tuple", "iter") and e.args:
+                wr.append(e)
+                e = e.args[0]
+            return e, wr
+        loops = [n for n in fi.node.body if isinstance(n, ast.For) and src(base_iter(n.iter)[0]) in ("%s.keys()" % inp, inp, "%s.items()" % inp)]
         if len(loops) != 1:
             raise AnalysisError("%s: outer loop over the steps not found" % name)
+        # the compressed series are positional: their order is the order in which the steps are visited.  The log's own (insertion) order
+        # and the numeric order are the step order; a textual sort ("10.0" < "2.0") or a reversal is not
+        bad_order = None
+        for w in base_iter(loops[0].iter)[1]:
+            kws = {k.arg: k.value for k in w.keywords}
+            if call_name(w) == "reversed" or (call_name(w) == "sorted" and "reverse" in kws and not (isinstance(kws["reverse"], ast.Constant) and kws["reverse"].value is False)):
+                bad_order = (w, "reversed")
+            elif call_name(w) == "sorted" and "key" in kws and not (isinstance(kws["key"], ast.Name) and kws["key"].id in ("float", "int")):
+                bad_order = (w, "sorted by %s" % src(kws["key"]))
+        res.check("INJECT", "%s visits the steps in step order" % name, bad_order is None, fi.loc(loops[0]), fi.qual, src(loops[0].iter)[:80],
+                  "%s visits the steps %s: the values are appended positionally, so from the tenth step on ('10.0' sorts before '2.0') the "
+                  "series is permuted and every value is restored under another step" % (name, bad_order[1] if bad_order else ""),
+                  key="INJECT/%s/step-order" % name)
         tgt = loops[0].target
         stepvar = tgt.id if isinstance(tgt, ast.Name) else tgt.elts[0].id
         rets = [n for n in walk_no_nested(fi.node) if isinstance(n, ast.Return)]
@@ -256,7 +276,7 @@ def check_c20(idx: Index, tier: str, res: Result) -> None:
                        "filtered before every consumer - contradiction rule: load_state checks, the constructor and /load-state "
                        "dereference; (3) the restore path reaches a replay of settings and settings_log onto the scenarios; (4) a worker "
                        "thread's exception is propagated or the result is checked for completeness.")
-    res.rules = ["ATOMIC: write-then-rename shape of _save_instance", "NULL: None-producers vs dereferencing consumers",
+    res.rules = ["ATOMIC: write-then-rename shape of _save_instance; the writer truncates", "PERSIST: every path from run_step() to a response passes save_instance()", "NULL: None-producers vs dereferencing consumers",
                  "REPLAY: call-graph reachability from the restore path to settings application", "THREADEXC: handler coverage in thread targets"]
     res.not_decided = ["equality of the continued values (numeric)", "crash timing inside the interpreter / OS buffering"]
     # ---- (1) atomic replace -----------------------------------------------------------------------------------------
@@ -278,6 +298,70 @@ def check_c20(idx: Index, tier: str, res: Result) -> None:
               "; ".join(src(c)[:70] for c in opens),
               "the instance file is opened with mode 'w' and written in place: a crash in the middle of the write leaves a truncated file "
               "where the previous good state was", key="ATOMIC/FileAdapter._save_instance/in-place-write")
+
+    # whatever the write strategy, a save replaces the *whole* content: a writer that neither truncates nor renames leaves the tail of a
+    # longer previous state behind a shorter new one, and the file no longer parses
+    nwr = 0
+    for c in iter_calls(sv.node):
+        if call_name(c) != "open":
+            continue
+        if isinstance(c.func, ast.Name):
+            mode = const_str(c.args[1]) if len(c.args) > 1 else next((const_str(k.value) for k in c.keywords if k.arg == "mode"), "r")
+            if mode is None or not any(ch in mode for ch in "wax+"):
+                continue
+            nwr += 1
+            ok = "w" in mode or "x" in mode
+            res.check("ATOMIC", "the state file is opened truncating", ok, sv.loc(c), sv.qual, src(c)[:90],
+                      "the state file is opened with mode %r, which keeps the previous content" % mode, key="ATOMIC/FileAdapter._save_instance/not-truncated")
+        elif (call_recv(c) or "") == "os" and len(c.args) >= 2:
+            flags = {a.attr for a in ast.walk(c.args[1]) if isinstance(a, ast.Attribute)} | {a.id for a in ast.walk(c.args[1]) if isinstance(a, ast.Name)}
+            if not flags & {"O_WRONLY", "O_RDWR"}:
+                continue
+            nwr += 1
+            target = src(c.args[0])
+            renamed = any(len(r.args) >= 2 and src(r.args[0]) == target for r in repl)
+            trunc_call = any(call_name(x) in ("truncate", "ftruncate") for x in iter_calls(sv.node))
+            ok = "O_TRUNC" in flags or ("O_EXCL" in flags and renamed) or trunc_call
+            res.check("ATOMIC", "the state file is opened truncating", ok, sv.loc(c), sv.qual, src(c)[:110],
+                      "the state file is opened with flags %s - without O_TRUNC: a state shorter than the previous one (a session begun again after "
+                      "several logged steps) leaves the old tail behind it, the file fails to parse and the instance cannot be restored"
+                      % "|".join(sorted(f for f in flags if f.startswith("O_"))), key="ATOMIC/FileAdapter._save_instance/not-truncated")
+    res.floor("writers of the state file", nwr, 1)
+
+    # every stepping request externalises the instance after the step: a step the client has seen is in the external state
+    nstep = 0
+    for fi in idx.all_funcs("BPTK_Py/server/"):
+        if fi.cls != "BptkServer" or not any(call_name(c) == "run_step" for c in iter_calls(fi.node)):
+            continue
+        cfg = build_cfg(fi.node, fi.qual)
+
+        def has_call(node_ast, name):
+            return any(call_name(c) == name for c in iter_calls(node_ast)) if node_ast is not None else False
+
+        def tr(node: Node, fact, label):
+            if node.kind == "stmt" and label != "exc":
+                if has_call(node.ast, "run_step"):
+                    return ["stepped"]
+                if has_call(node.ast, "save_instance"):
+                    return ["clean"]
+            if node.kind == "test" and "_external_state_adapter" in src(node.ast) and label == "false" and "!=" in src(node.ast).replace("is not", "!="):
+                return ["clean"]         # no external state configured: nothing to externalise
+            if node.kind == "test" and "_external_state_adapter" in src(node.ast) and label == "true" and ("==" in src(node.ast) or " is None" in src(node.ast)) \
+                    and "!=" not in src(node.ast) and "is not" not in src(node.ast):
+                return ["clean"]
+            return [fact]
+        flow = Flow(cfg, ["clean"], tr)
+        nstep += 1
+        bad = None
+        for nd in cfg.nodes:
+            if nd.kind == "exit" and "stepped" in flow.at.get(nd.id, set()):
+                bad = nd
+        wit = flow.witness(bad.id, "stepped") if bad is not None else []
+        res.check("PERSIST", "%s externalises the instance after every step" % fi.qual, bad is None, fi.loc(), fi.qual, "run_step ... save_instance",
+                  "%s can answer a request after run_step() without save_instance(): the step the client has seen is not in the external state, "
+                  "so after a crash the instance resumes one or more steps behind. Path: %s" % (fi.qual, " ; ".join(wit[-6:])),
+                  key="PERSIST/%s/step-not-externalised" % fi.qual)
+    res.floor("stepping handlers", nstep, 3)
 
     # ---- (2) None from the loader -------------------------------------------------------------------------------------
     ld = idx.func(ADAPTER, "FileAdapter._load_instance")
